@@ -365,7 +365,7 @@ package hashgraph
 //@   ensures[err] ret1 != nil ==> ret0 == nil
 
 // FrameWF: no nil peer, frame event or core event (what the consumers of a frame dereference).
-//@ ghost func FrameWF(f *Frame) bool { return len(f.Peers) < 2147483648 && (forall i int :: 0 <= i && i < len(f.Peers) ==> f.Peers[i] != nil) && (forall k int :: 0 <= k && k < len(f.Events) ==> f.Events[k] != nil && f.Events[k].Core != nil) }
+//@ ghost func FrameWF(f *Frame) bool { return len(f.Peers) < 2147483648 && (forall i int :: 0 <= i && i < len(f.Peers) ==> f.Peers[i] != nil && __allocated(f.Peers[i])) && (forall k int :: 0 <= k && k < len(f.Events) ==> f.Events[k] != nil && f.Events[k].Core != nil) }
 
 //@ iface func (s Store) GetFrame(roundReceived int) (*Frame, error)
 //@   modifies nothing
@@ -421,7 +421,7 @@ package hashgraph
 // Blocks from frames (C04, C05, C18)
 
 //@ func NewBlockFromFrame(blockIndex int, frame *Frame) (*Block, error)
-//@   requires frame != nil && len(frame.Peers) < 2147483648 && (forall i int :: 0 <= i && i < len(frame.Peers) ==> frame.Peers[i] != nil)
+//@   requires frame != nil && len(frame.Peers) < 2147483648 && (forall i int :: 0 <= i && i < len(frame.Peers) ==> frame.Peers[i] != nil && __allocated(frame.Peers[i]))
 //@   requires forall k int :: 0 <= k && k < len(frame.Events) ==> frame.Events[k] != nil && frame.Events[k].Core != nil
 //@   modifies nothing
 //@   ensures[header]  ret1 == nil ==> ret0 != nil && __fresh(ret0) && ret0.Body.Index == blockIndex && ret0.Body.RoundReceived == frame.Round && ret0.Body.Timestamp == frame.Timestamp && __seqeq(ret0.Body.FrameHash, FrameHashOf(*frame)) && __seqeq(ret0.Body.PeersHash, peers.PSHashOf(frame.Peers)) && ret0.Signatures != nil && len(ret0.Signatures) == 0 && len(ret0.Body.StateHash) == 0
